@@ -57,6 +57,11 @@ def switch_table(f, cond_text=None):
 
 
 def run(fb, rep, tier):
+    _run(fb, rep, tier)
+    flip_maps(fb, rep)
+
+
+def _run(fb, rep, tier):
     rep.extra['explanation'] = EXPLANATION
     # ------------------------------------------------------------------ R04.1
     rep.rule('R04.1', 'status conversion tables compose to the identity on non-basic statuses; basic <-> dual statuses; exhaustive switches', floor=20)
@@ -273,3 +278,42 @@ def mirror(fb, rep):
                         diff = 'different number of statements (%d vs %d)' % (len(MA[k]), len(BB[k]))
                 rep.check(same, 'R04.5', key, fbb.where(), 'arms are mirror images (%d statements)' % len(BB[k]), 'the arm for %s is not the mirror image of its sibling: %s' % ('/'.join(k), diff))
         rep.check([mirror_text(clean(x)) for x in ra] == [clean(x) for x in rb], 'R04.5', '%s~%s|prologue-epilogue' % (a, b), fbb.where(), 'code around the switch mirrors', 'the code around the switch differs between %s and %s' % (a, b))
+
+
+def flip_maps(fb, rep):
+    """R04.6: wherever a switch over a basis status assigns, in its ON_LOWER arm and in its ON_UPPER arm, one of these two statuses to the
+    same target (the slack / sign flip between a column and its row, P_* and D_* likewise), the two arms assign different values: the
+    map is the identity or the swap, never two-to-one - otherwise one bound status is lost and the basis no longer describes the vertex."""
+    rep.rule('R04.6', 'status maps restricted to the pair ON_LOWER / ON_UPPER are one-to-one (identity or swap)', floor=5)
+    from engine import case_arm_nodes
+    PAIRS = [('ON_LOWER', 'ON_UPPER'), ('P_ON_LOWER', 'P_ON_UPPER'), ('D_ON_LOWER', 'D_ON_UPPER')]
+    k = 0
+    for f in sorted(fb.funcs.values(), key=lambda g: (g.name, g.sig)):
+        if not f.name.startswith('soplex::') or not f.nodes:
+            continue
+        for sw in f.nodes:
+            if sw.k != 'SwitchStmt':
+                continue
+            cases = {}
+            for c in sw.walk():
+                if c.k == 'CaseStmt':
+                    lab = [x.short for x in c.kids[0].walk() if x.k == 'DeclRefExpr' and x.dk == 'enum']
+                    if lab:
+                        cases.setdefault(lab[0], c)
+            for a, b in PAIRS:
+                if a not in cases or b not in cases:
+                    continue
+
+                def target(c):
+                    arm = case_arm_nodes(f, c)
+                    asg = [x for x in arm if x.k == 'BinaryOperator' and x.o == '=' and strip(x.kids[1]).k == 'DeclRefExpr' and strip(x.kids[1]).dk == 'enum' and strip(x.kids[1]).short in (a, b)]
+                    return set(strip(x.kids[1]).short for x in asg), set(render(x.kids[0]) for x in asg)
+                va, ta = target(cases[a])
+                vb, tb = target(cases[b])
+                if len(va) != 1 or len(vb) != 1 or ta != tb:
+                    continue
+                k += 1
+                rep.check(va != vb, 'R04.6', '%s|switch@%d|%s' % (f.name.replace('soplex::', '')[:50], sw.l, sorted(ta)[0][:25]), '%s:%d' % (f.file, sw.l), '%s -> %s, %s -> %s' % (a, sorted(va)[0], b, sorted(vb)[0]),
+                          'both the %s arm and the %s arm assign %s to %s: the map is two-to-one, one of the two bound statuses is lost' % (a, b, sorted(va)[0], sorted(ta)[0][:30]))
+    if k < 5:
+        raise AnalysisBroken('R04.6: only %d lower/upper status maps found' % k)
